@@ -36,7 +36,7 @@ CHECK_CONDITIONAL_BATCH_COUNT_ERROR = False
 # returns a numpy array (NotePerformance, Pianoroll) that is numpy addition: ValueError for different sizes, a silent
 # element-wise SUM for equal sizes (notes/C08-fix-4.diff).  The input / encode clauses for such targets are switched
 # on once that fix is in /repo; labels, decoding, generation and labels_to_num_steps are checked regardless.
-CHECK_CONDITIONAL_ARRAY_INPUTS = False
+CHECK_CONDITIONAL_ARRAY_INPUTS = True
 
 NO_EVENT, NOTE_OFF = -2, -1
 T_ON, T_OFF, T_SHIFT, T_VEL, T_DUR = 1, 2, 3, 4, 5
